@@ -617,7 +617,7 @@ func checkBytes(b BytesCase) error {
 var subBytes = vk.Register(&vk.Sub[BytesCase]{Name: "bytes_fuzz", Check: checkBytes})
 
 func FuzzSub_bytes_fuzz(f *testing.F) {
-	if fh, err := os.Open("/repo/io/uniprot/data/uniprot_sprot_mini.xml.gz"); err == nil {
+	if fh, err := os.Open(vk.RepoPath("io/uniprot/data/uniprot_sprot_mini.xml.gz")); err == nil {
 		if zr, err := gzip.NewReader(fh); err == nil {
 			if b, err := io.ReadAll(zr); err == nil {
 				f.Add(b[:min(len(b), 6000)])
